@@ -140,4 +140,170 @@ def lexStringExtra (q : Nat) : List Nat → Option (List Nat × List Nat)
     else if c = q then some ([], cs)
     else (lexStringExtra q cs).map (fun r => (c :: r.1, r.2))
 
+/-! ## numbers and durations: scanNumber, acceptRemainingDuration, lexNumberOrDuration, lexDuration (lex.go),
+     model.ParseDuration + parser.parseDuration, and the printer's `%d` / `%ds` -/
+
+def isDigitB (c : Nat) : Bool := 48 ≤ c && c ≤ 57
+def isAlphaB (c : Nat) : Bool := c == 95 || (97 ≤ c && c ≤ 122) || (65 ≤ c && c ≤ 90)
+def isAlnumB (c : Nat) : Bool := isAlphaB c || isDigitB c
+def isHexDigitB (c : Nat) : Bool := isDigitB c || (97 ≤ c && c ≤ 102) || (65 ≤ c && c ≤ 70)
+
+/-- the rune `peek` sees is alphanumeric (false at end of input) -/
+def headAlnum : List Nat → Bool
+  | c :: _ => isAlnumB c
+  | [] => false
+
+/-- `accept("0") && accept("xX")`: the rest after it and whether hexadecimal digits are accepted from here on -/
+def scanPrefix : List Nat → Bool × List Nat
+  | 48 :: c :: cs => if c = 120 ∨ c = 88 then (true, cs) else (false, c :: cs)
+  | 48 :: [] => (false, [])
+  | cs => (false, cs)
+
+def scanFrac (p : Nat → Bool) : List Nat → List Nat
+  | 46 :: cs => cs.dropWhile p
+  | cs => cs
+
+def scanSign : List Nat → List Nat
+  | c :: cs => if c = 43 ∨ c = 45 then cs else c :: cs
+  | [] => []
+
+def scanExp : List Nat → List Nat
+  | c :: cs => if c = 101 ∨ c = 69 then (scanSign cs).dropWhile isDigitB else c :: cs
+  | [] => []
+
+/-- scanNumber: (result, input after the consumed characters) -/
+def scanNumber (cs : List Nat) : Bool × List Nat :=
+  let p := scanPrefix cs
+  let digits : Nat → Bool := if p.1 then isHexDigitB else isDigitB
+  let r := scanExp (scanFrac digits (p.2.dropWhile digits))
+  (!headAlnum r, r)
+
+def isUnit1 (c : Nat) : Bool := c == 115 || c == 109 || c == 104 || c == 100 || c == 119 || c == 121   -- s m h d w y
+def isUnit2 (c : Nat) : Bool := c == 115 || c == 109 || c == 104 || c == 100 || c == 119               -- s m h d w
+
+/-- the loop of acceptRemainingDuration after the first unit: more `<digits><unit>[s]` groups, then a non-alphanumeric -/
+def remDurLoop : Nat → List Nat → Option (List Nat)
+  | 0, _ => none
+  | f + 1, cs =>
+    match cs with
+    | c :: t =>
+      if isDigitB c then
+        match t.dropWhile isDigitB with
+        | u :: t2 => if isUnit2 u then
+            (match t2 with
+             | 115 :: t3 => remDurLoop f t3
+             | _ => remDurLoop f t2)
+          else none
+        | [] => none
+      else if isAlnumB c then none else some (c :: t)
+    | [] => some []
+
+/-- acceptRemainingDuration: input after the duration, `none` when it returns false -/
+def acceptRemDur : List Nat → Option (List Nat)
+  | u :: t => if isUnit1 u then remDurLoop (t.length + 1) t else none
+  | [] => none
+
+inductive NumTok | num (len : Nat) | dur (len : Nat) | err
+deriving DecidableEq, Repr
+
+/-- lexNumberOrDuration (the input starts with a digit, or `.` and a digit) -/
+def lexNumOrDur (cs : List Nat) : NumTok :=
+  let s := scanNumber cs
+  if s.1 then .num (cs.length - s.2.length)
+  else match acceptRemDur s.2 with
+    | some r => .dur (cs.length - r.length)
+    | none => .err
+
+/-- lexDuration (first token after `[`) -/
+def lexDurationB (cs : List Nat) : NumTok :=
+  let s := scanNumber cs
+  if s.1 then .err                                  -- missing unit character in duration
+  else match acceptRemDur s.2 with
+    | some r => .dur (cs.length - r.length)
+    | none => .err
+
+/-- lexKeywordOrIdentifier: the word is the run of alphanumerics and colons -/
+def isWordB (c : Nat) : Bool := isAlnumB c || c == 58
+def lexWord (cs : List Nat) : List Nat × List Nat := (cs.takeWhile isWordB, cs.dropWhile isWordB)
+
+/-- value of a run of decimal digits (strconv.ParseUint without its overflow test) -/
+def readNat (ds : List Nat) : Nat := ds.foldl (fun acc d => acc * 10 + (d - 48)) 0
+
+/-- model.ParseDuration unitMap: (position, nanoseconds) -/
+def unitOf (u : List Nat) : Option (Nat × Nat) :=
+  if u = [109, 115] then some (7, 1000000)
+  else if u = [115] then some (6, 1000000000)
+  else if u = [109] then some (5, 60000000000)
+  else if u = [104] then some (4, 3600000000000)
+  else if u = [100] then some (3, 86400000000000)
+  else if u = [119] then some (2, 604800000000000)
+  else if u = [121] then some (1, 31536000000000000)
+  else none
+
+/-- the loop of model.ParseDuration: nanoseconds -/
+def parseDurLoop : Nat → List Nat → Nat → Nat → Option Nat
+  | 0, _, _, _ => none
+  | f + 1, s, last, dur =>
+    match s with
+    | [] => some dur
+    | c :: _ =>
+      if !isDigitB c then none
+      else
+        let ds := s.takeWhile isDigitB
+        let s1 := s.dropWhile isDigitB
+        let v := readNat ds
+        if v ≥ 2 ^ 64 then none                                  -- strconv.ParseUint: value out of range
+        else
+          let u := s1.takeWhile (fun c => !isDigitB c)
+          let s2 := s1.dropWhile (fun c => !isDigitB c)
+          match unitOf u with
+          | none => none                                         -- empty or unknown unit
+          | some (pos, mult) =>
+            if pos ≤ last then none
+            else if v > 2 ^ 63 / mult then none
+            else if dur + v * mult > 2 ^ 63 - 1 then none
+            else parseDurLoop f s2 pos (dur + v * mult)
+
+def parseDurNs (s : List Nat) : Option Nat :=
+  if s = [48] then some 0 else if s = [] then none else parseDurLoop (s.length + 1) s 0 0
+
+/-- parser.parseDuration: seconds, rounded half up (math.Round of a non-negative quotient; exact as long as the float64
+    conversion of the nanoseconds is, i.e. below 2^59 ns ≈ 18 years — every duration is a multiple of 10^6 ns) -/
+def parseDuration (s : List Nat) : Option Nat :=
+  match parseDurNs s with
+  | none => none
+  | some d => if d = 0 then none else some ((d + 500000000) / 1000000000)
+
+/-- decimal digits of n, most significant first (`%d`) -/
+def digitsAux : Nat → Nat → List Nat
+  | 0, n => [48 + n % 10]
+  | f + 1, n => if n < 10 then [48 + n] else digitsAux f (n / 10) ++ [48 + n % 10]
+
+def natDigits (n : Nat) : List Nat := digitsAux n n
+
+/-- `%ds` -/
+def printSeconds (n : Nat) : List Nat := natDigits n ++ [115]
+
+/-- the shapes of a finite non-negative number as fmt.Sprint(float64) writes it: digits, optional `.digits`,
+    optional `e±dd` -/
+structure NumShape where
+  int : List Nat
+  frac : Option (List Nat)
+  exp : Option (Bool × List Nat)       -- (negative exponent, digits)
+
+def NumShape.ok (s : NumShape) : Bool :=
+  !s.int.isEmpty && s.int.all isDigitB &&
+  (match s.frac with | some f => !f.isEmpty && f.all isDigitB | none => true) &&
+  (match s.exp with | some (_, e) => !e.isEmpty && e.all isDigitB | none => true)
+
+def fracToks : Option (List Nat) → List Nat
+  | some f => 46 :: f
+  | none => []
+
+def expToks : Option (Bool × List Nat) → List Nat
+  | some (neg, e) => 101 :: (if neg then 45 else 43) :: e
+  | none => []
+
+def NumShape.render (s : NumShape) : List Nat := s.int ++ fracToks s.frac ++ expToks s.exp
+
 end SH.PromLex
